@@ -1,0 +1,16 @@
+//go:build verif
+
+package pilosa
+
+// VerifTranslateGate, when set (before any store is used), is called by
+// TranslateColumnsToUint64 / TranslateRowsToUint64 on the caller's goroutine
+// between the read phase (read lock released, some key unknown) and the write
+// phase (write lock not yet taken). A hook may block there to order the
+// phases of two callers.
+var VerifTranslateGate func(s *TranslateFile)
+
+func verifTranslateGate(s *TranslateFile) {
+	if h := VerifTranslateGate; h != nil {
+		h(s)
+	}
+}
